@@ -141,6 +141,32 @@ m("ndt-cache-partial-key", "chartparse/tick.py",
 m("sustain-scratch-buffer", "chartparse/instrument.py",
   "    sustain_list = _SustainList([None] * 5)\n    for d in filter(lambda d: d.note_track_index.is_5_note(), datas):\n        sustain_list[d.note_track_index.value] = d.sustain\n",
   "    sustain_list = _SCRATCH\n    for i in range(5):\n        sustain_list[i] = None\n    for d in filter(lambda d: d.note_track_index.is_5_note(), datas):\n        sustain_list[d.note_track_index.value] = d.sustain\n", ["C17"])
+# ---- C07
+m("n-index-0-8", "chartparse/instrument.py", r'= N ([0-7]) (\d+?)', r'= N ([0-8]) (\d+?)', ["C07"])
+m("n-index-0-6", "chartparse/instrument.py", r'= N ([0-7]) (\d+?)', r'= N ([0-6]) (\d+?)', ["C07"])
+m("n-sustain-one-digit-more", "chartparse/instrument.py", r'= N ([0-7]) (\d+?)\s*?$', r'= N ([0-7]) (\d{1,9}?)\s*?$', ["C07"])
+m("e-lost-end-anchor", "chartparse/instrument.py", r'= E ([^ ]*?)\s*?$"', r'= E ([^ ]*?)\s*?"', ["C07"])
+m("n-swapped-groups", "chartparse/instrument.py",
+  "            raw_tick, raw_note_index, raw_sustain = m.groups()\n            note_track_index",
+  "            raw_tick, raw_note_index, raw_sustain = m.groups()\n            if len(raw_tick) > 9:\n                raw_tick, raw_sustain = raw_sustain, raw_tick\n            note_track_index", ["C07"])
+m("e-value-lowercased", "chartparse/instrument.py",
+  "            return cls(tick=Tick(int(raw_tick)), value=raw_value)\n\n\n# TODO", "            return cls(tick=Tick(int(raw_tick)), value=raw_value)\n\n\n# TODO", [])
+# ---- C09
+m("text-kind-first", "chartparse/globalevents.py",
+  "            (LyricEvent.ParsedData, SectionEvent.ParsedData, TextEvent.ParsedData),\n            lines,",
+  "            (TextEvent.ParsedData, LyricEvent.ParsedData, SectionEvent.ParsedData),\n            lines,", ["C09"])
+m("lyric-prefix-no-blank", "chartparse/globalevents.py", '_value_regex = "lyric (.*?)"', '_value_regex = "lyric ?(.*?)"', ["C09"])
+m("section-value-stripped", "chartparse/globalevents.py",
+  "            return cls(tick=Tick(int(raw_tick)), value=raw_value)",
+  "            return cls(tick=Tick(int(raw_tick)), value=raw_value.strip() if raw_value.endswith('  ') else raw_value)", ["C09"])
+m("section-value-no-quotes", "chartparse/globalevents.py", '_value_regex = r"section (.*?)"', "_value_regex = r'section ([^\"]*?)'", ["C09"])
+# ---- C10
+m("field-greedy-value", "chartparse/metadata.py", 'return _FieldParsingSpec.make_field_regex(field_name, r".+?")', 'return _FieldParsingSpec.make_field_regex(field_name, r".+")', ["C10"])
+m("default-genre-changed", "chartparse/metadata.py", 'genre: str = "rock"', 'genre: str = "Rock"', ["C10"])
+m("field-last-match", "chartparse/metadata.py", "            for line in lines:\n                m = regex_prog.match(line)", "            for line in reversed(lines):\n                m = regex_prog.match(line)", [], ["C10"])  # one line per field in the domain: neutral
+m("field-unanchored-name", "chartparse/metadata.py", 'return rf"^\\s*?{field_name} = ', 'return rf"^.*?{field_name} = ', ["C10"])
+m("str-field-strips-value", "chartparse/metadata.py",
+  "super().__init__(self.make_multiword_str_field_regex(field_name), str)", "super().__init__(self.make_multiword_str_field_regex(field_name), lambda s: s.strip() if len(s) > 6 else s)", ["C10"])
 # ---- C08
 m("bpm-sum-parts", "chartparse/sync.py",
   "bpm = int(data.raw_bpm) / 1000",
